@@ -459,14 +459,25 @@ def _nonneg_const(x):
     return isinstance(x, Term) and x.op == "const" and isinstance(x.args[0], Fraction) and x.args[0] >= 0
 
 
+def _setdiff_pattern(t):
+    """flatnonzero(~isin(arange(n), b)): the positions are the values themselves, setdiff1d(arange(n), b)"""
+    if isinstance(t, Term) and t.op == "nonzero1" and len(t.args) == 1:
+        m = t.args[0]
+        if isinstance(m, Term) and m.op == "invert" and isinstance(m.args[0], Term) and m.args[0].op == "isin":
+            x, b = m.args[0].args[0], m.args[0].args[1]
+            if isinstance(x, Term) and x.op == "arange" and len(x.args) == 1:
+                return Term("setdiff1d", x, b)
+    return None
+
+
 def _canon_idx_term(idx):
     """index terms modulo: flatnonzero(mask) used as an index == the mask; trailing full slices"""
     if not isinstance(idx, Term):
         return idx
     if idx.op == "nonzero1":
-        return idx.args[0]
+        return _setdiff_pattern(idx) or idx.args[0]
     if idx.op == "tuple":
-        items = [z.args[0] if isinstance(z, Term) and z.op == "nonzero1" else z for z in idx.args]
+        items = [(_setdiff_pattern(z) or z.args[0]) if isinstance(z, Term) and z.op == "nonzero1" else z for z in idx.args]
         while len(items) > 1 and _term_full_slice(items[-1]):
             items.pop()
         if len(items) == 1:
@@ -499,6 +510,21 @@ def _combine_bounds(a, b):
     if isinstance(a, Node) and a.op == "min" and b in a.kids:
         return a
     return A("min", *sorted([a, b], key=id))
+
+
+def _suffix_slice(fi):
+    """axis if the frozen index is a[lo:] or a[:, lo:]"""
+    def is_suffix(x):
+        return isinstance(x, Node) and x.op == "slice" and len(x.kids) == 3 and x.kids[1] is _none() and x.kids[2] is _none() and x.kids[0] is not _none()
+
+    def is_full(x):
+        return isinstance(x, Node) and x.op == "slice" and all(k is _none() for k in x.kids)
+
+    if is_suffix(fi):
+        return 0
+    if isinstance(fi, Node) and fi.op == "tuple" and len(fi.kids) == 2 and is_full(fi.kids[0]) and is_suffix(fi.kids[1]):
+        return 1
+    return None
 
 
 def _slice_atom(x, axis, hi):
@@ -768,9 +794,8 @@ class Normalizer:
             if isinstance(st_t, Term) and st_t.op == "store" and self.nf(st_t.args[0]) == self.nf(other) and _nonempty_guard(a[0], st_t.args[1]):
                 return self.nf(st_t)
             return P_atom(A("phi", self.freeze(a[0]), wrap(x), wrap(y)))
-        if op == "nonzero1" and len(a) == 1 and isinstance(a[0], Term) and a[0].op == "invert" and isinstance(a[0].args[0], Term) and a[0].args[0].op == "isin" and isinstance(a[0].args[0].args[0], Term) and a[0].args[0].args[0].op == "arange" and len(a[0].args[0].args[0].args) == 1:
-            # positions of arange(n) not contained in b are those values themselves: setdiff1d(arange(n), b)
-            return self.nf(Term("setdiff1d", a[0].args[0].args[0], a[0].args[0].args[1]))
+        if op == "nonzero1" and _setdiff_pattern(t) is not None:
+            return self.nf(_setdiff_pattern(t))
         if op == "lstsq" and len(a) >= 2:
             # the minimum-norm least-squares solution of A Z = B is pinv(A) @ B (same relative cut-off)
             return p_matmul(P_atom(A("pinv", self.freeze(a[0]), *[self.freeze(x) for x in a[2:]])), self.nf(a[1]))
@@ -826,6 +851,11 @@ class Normalizer:
             ax = _prefix_slice(fi)
             if ax is not None and pb:
                 return self._slice_poly(pb, ax[0], ax[1], fi)
+            sx = _suffix_slice(fi)
+            if sx is not None and pb:
+                r = self._suffix_poly(pb, sx, fi)
+                if r is not None:
+                    return r
             return P_atom(A("getitem", wrap(pb), fi))
         if op == "store":
             base, idx, val = a
@@ -868,6 +898,27 @@ class Normalizer:
         if op == "stack" and len(a) == 2 and isinstance(a[1], Term) and a[1].op == "argwhere" and len(a[1].args) == 2 and a[1].args[1] == ("rank", Term("const", Fraction(1))) and isinstance(a[0], Term) and a[0].op == "const" and a[0].args[0] == 0:
             # np.concatenate(np.argwhere(m)) lists the indices of a 1-D mask: np.flatnonzero(m)
             return self.nf(Term("nonzero1", a[1].args[0]))
+        if op == "stack" and len(a) == 3 and isinstance(a[0], Term) and a[0].op == "const" and a[0].args[0] == 1 and isinstance(a[1], Term) and isinstance(a[2], Term):
+            # [x + C @ M[:, :k],  y + C @ M[:, k:]] = [x, y] + C @ M : a product split by columns at the block boundary
+            p1, p2 = self.nf(a[1]), self.nf(a[2])
+            d1, d2, out = dict(p1), dict(p2), {}
+            for (s, chain), c in p1:
+                if not chain or chain[-1].op != "getitem":
+                    continue
+                pre = _prefix_slice(chain[-1].kids[1])
+                if pre is None or pre[0] != 1:
+                    continue
+                M = chain[-1].kids[0]
+                rest = A("getitem", M, A("tuple", A("slice", _none(), _none(), _none()), A("slice", pre[1], _none(), _none())))
+                m2 = (s, chain[:-1] + (rest,))
+                if d2.get(m2) == c and d1.get((s, chain)) == c:
+                    del d1[(s, chain)], d2[m2]
+                    out[(s, chain[:-1] + (M,))] = out.get((s, chain[:-1] + (M,)), 0) + c
+            if out:
+                inner = P_atom(A("stack", self.freeze(a[0]), wrap(_mk(d1)), wrap(_mk(d2))))
+                if not d1 and not d2:
+                    inner = ZERO
+                return p_add(inner, _mk(out))
         if op == "stack" and len(a) == 2 and isinstance(a[1], Term):
             pl = self.nf(a[1])
             if len(pl) == 1:
@@ -989,6 +1040,22 @@ class Normalizer:
             if chain:
                 s = _merge_s(s, _scalar_factors(chain))
             d[(s, ())] = d.get((s, ()), 0) + k
+        return _mk(d)
+
+    def _suffix_poly(self, p, axis, fi):
+        """suffix slice [lo:] on axis 0 / 1 distributed over sums and pushed into the first / last
+        factor of matmul chains (rows of the first factor, columns of the last); None if a
+        factor is not a plain matrix atom"""
+        d = {}
+        for (s, chain), k in p:
+            if not chain:
+                return None
+            pos = 0 if axis == 0 else len(chain) - 1
+            x = chain[pos]
+            if x.op in ("dg", "t", "had", "eye"):
+                return None
+            m = (s, chain[:pos] + (A("getitem", x, fi),) + chain[pos + 1:])
+            d[m] = d.get(m, 0) + k
         return _mk(d)
 
     def _slice_poly(self, p, axis, hi, fi):
